@@ -32,7 +32,7 @@ vars == <<g, done>>
 \* ------------------------------------------------------------------------------------------------------
 \* 1. scenario space
 \* ------------------------------------------------------------------------------------------------------
-NGenes == 230
+NGenes == 250
 F10 == [1..10 -> 0..59]
 RECURSIVE RandGenes(_)
 RandGenes(k) == IF k = 0 THEN <<>> ELSE (CHOOSE x \in RandomSubset(1, F10) : TRUE) \o RandGenes(k - 1)
@@ -162,11 +162,11 @@ Shape(o, slot, depth) ==
     IN Elem(kind, depth, geo, pts, segs, StyleAttrs(o, slot, TRUE), ClassOf(o), IdOf(o, slot))
 Group(o, slot, depth) == Elem("g", depth, <<>>, <<>>, <<>>, StyleAttrs(o, slot, FALSE), ClassOf(o), IdOf(o, slot))
 
-\* ---- gene layout: document 0.., rules 20.., groups 35.. (30 each), shapes 95.. (45 each) ----------------------
+\* ---- gene layout: document 0.., rules 20.., groups 35.. (30 each), shapes 95.. (50 each) ----------------------
 DOCo == 0
 RULo == 20
 GRPo(k) == 35 + 30 * (k - 1)
-SHPo(k) == 95 + 45 * (k - 1)
+SHPo(k) == 95 + 50 * (k - 1)
 \* structures: preorder lists of <<"g"|"s", depth>>
 Structs == << << <<"s",1>>, <<"s",1>>, <<"s",1>> >>,
               << <<"g",1>>, <<"s",2>>, <<"s",2>>, <<"s",1>> >>,
@@ -466,18 +466,18 @@ StrokeClass(n, st, s) ==
 Grid(box, m) == LET gx == 2 * ((box[1] - m) \div 2) + 1  gy == 2 * ((box[2] - m) \div 2) + 1
                 IN [gx |-> gx, gy |-> gy, nx |-> (box[3] + m - gx) \div Step + 1, ny |-> (box[4] + m - gy) \div Step + 1]
 GridPt(gr, k) == << gr.gx + Step * ((k - 1) % gr.nx), gr.gy + Step * ((k - 1) \div gr.nx) >>
-TooBig(n) == n.box[3] - n.box[1] > 80 \/ n.box[4] - n.box[2] > 80        \* keeps every degree-4 term below 2^31
+TooBig(n) == n.box[3] - n.box[1] > 96 \/ n.box[4] - n.box[2] > 96        \* keeps every degree-4 term below 2^31
 StrokeStyle(w, join, lim, cap) == [hw |-> (S * w) \div 2, join |-> join, lim |-> lim, cap |-> cap]
-Margin(st) == st.hw + Tol + Step + (IF st.join = "miter" THEN MinI(2 * st.hw, 16) ELSE 0)
-Event(el, kind, col, map, gr, cells, haz, info) ==
+Margin(st) == st.hw + Tol + 4 + (IF st.join = "miter" THEN MinI(2 * st.hw, 16) ELSE 0)
+Event(el, kind, col, map, gr, cells, haz, info, cd) ==
     [el |-> el, kind |-> kind, rgba |-> RGBA(col), col |-> col, map |-> map, gx |-> gr.gx, gy |-> gr.gy, nx |-> gr.nx, ny |-> gr.ny, step |-> Step,
-     cells |-> cells, opt |-> \A k \in 1..Len(cells) : cells[k] # CIN, haz |-> haz, info |-> info]
-FillEvent(el, n, col, rule, map, haz) ==
-    LET gr == Grid(n.box, Step + 2) IN
-    Event(el, "fill", col, map, gr, [k \in 1..(gr.nx * gr.ny) |-> IF TooBig(n) THEN CFREE ELSE FillClass(n, GridPt(gr, k), rule)], haz, <<rule>>)
-StrokeEvent(el, n, col, st, map, haz) ==
+     cells |-> cells, opt |-> \A k \in 1..Len(cells) : cells[k] # CIN, haz |-> haz, info |-> info, cd |-> cd]
+FillEvent(el, n, col, rule, map, haz, cd) ==
+    LET gr == Grid(n.box, 5) IN
+    Event(el, "fill", col, map, gr, [k \in 1..(gr.nx * gr.ny) |-> IF TooBig(n) THEN CFREE ELSE FillClass(n, GridPt(gr, k), rule)], haz, [rule |-> rule], cd)
+StrokeEvent(el, n, col, st, map, haz, cd) ==
     LET gr == Grid(n.box, Margin(st)) IN
-    Event(el, "stroke", col, map, gr, [k \in 1..(gr.nx * gr.ny) |-> IF TooBig(n) THEN CFREE ELSE StrokeClass(n, st, GridPt(gr, k))], haz, <<st.hw, st.join, st.lim, st.cap>>)
+    Event(el, "stroke", col, map, gr, [k \in 1..(gr.nx * gr.ny) |-> IF TooBig(n) THEN CFREE ELSE StrokeClass(n, st, GridPt(gr, k))], haz, [hw |-> st.hw, join |-> st.join, lim |-> st.lim, cap |-> st.cap], cd)
 
 \* ---- scenario features: where the cascade of an element is sensitive to the order in which sources are applied ----------------
 RECURSIVE Chain(_, _)
@@ -491,21 +491,33 @@ HazAt(rules, es, i, p) ==
     \cup (IF \E k \in 1..Len(rules) : /\ LastDecl(rules[k].d, p, Len(rules[k].d)) # "" /\ ~Matches(rules[k], e)
                                       /\ \E a \in Chain(es, i) \ {i} : Matches(rules[k], es[a])
           THEN {"ancestor-rule:" \o p} ELSE {})
+    \cup (IF \E k \in 1..Len(rules) : /\ rules[k].id # "" /\ LastDecl(rules[k].d, p, Len(rules[k].d)) # "" /\ ~Matches(rules[k], e)
+                                      /\ \E a \in Chain(es, i) : Matches([rules[k] EXCEPT !.id = ""], es[a])
+          THEN {"id-selector:" \o p} ELSE {})
     \cup (IF p = "stroke-miterlimit" /\ Declared(rules, e, p) # "" THEN {"miterlimit-declared"} ELSE {})
 Haz(rules, es, i, ps) == UNION {HazAt(rules, es, j, p) : j \in Chain(es, i), p \in ps}
+\* every value some source declares for p on the element, an ancestor or in any rule, and the initial value
+CandVals(rules, es, i, p) == ({Initial(p)} \cup {AttrVal(es[j], p) : j \in Chain(es, i)} \cup {StyleVal(es[j], p) : j \in Chain(es, i)}
+                              \cup {LastDecl(rules[k].d, p, Len(rules[k].d)) : k \in 1..Len(rules)}) \ {""}
 StrokeProps == {"stroke", "stroke-width", "stroke-linejoin", "stroke-miterlimit", "stroke-linecap"}
 DocFeat(d) == (IF d.hasvb /\ (d.vb[1] # 0 \/ d.vb[2] # 0) THEN {"vb-origin"} ELSE {})
               \cup (IF d.hasvb /\ d.unit # "absent" /\ d.w * d.vb[4] # d.h * d.vb[3] THEN {"aspect"} ELSE {})
               \cup (IF ~d.hasvb THEN {"no-viewbox"} ELSE {}) \cup {"unit:" \o d.unit}
 
+\* geometric features of an outline: two consecutive line segments that fold back onto each other (canvas' path builder merges those: C10)
+GeoFeat(n) == IF n.kind = "poly" /\ \E i \in 1..Len(n.joints) : LET j == n.joints[i] IN j.exact /\ Cross(j.a, j.v, j.b) = 0 /\ DotP(j.v, j.a, j.b) > 0
+              THEN {"line-reversal"} ELSE {}
 IsShape(e) == e.kind \notin {"svg", "g"}
 ElemEvents(d, i) ==
     LET es == d.es  e == es[i]  n == NF(e)  map == SMap(d, CTM(es, i))
         fill == Computed(d.rules, es, i, "fill")  stroke == Computed(d.rules, es, i, "stroke")
         st == StrokeStyle(Num10(Computed(d.rules, es, i, "stroke-width")), Computed(d.rules, es, i, "stroke-linejoin"),
                           Num10(Computed(d.rules, es, i, "stroke-miterlimit")), Computed(d.rules, es, i, "stroke-linecap"))
-    IN (IF fill # "none" THEN <<FillEvent(i, n, fill, 0, map, Haz(d.rules, es, i, {"fill"}))>> ELSE <<>>)
-       \o (IF stroke # "none" THEN <<StrokeEvent(i, n, stroke, st, map, Haz(d.rules, es, i, StrokeProps))>> ELSE <<>>)
+    IN (IF fill # "none" THEN <<FillEvent(i, n, fill, 0, map, Haz(d.rules, es, i, {"fill"}) \cup GeoFeat(n), [col |-> {RGBA(v) : v \in CandVals(d.rules, es, i, "fill")}])>> ELSE <<>>)
+       \o (IF stroke # "none" THEN <<StrokeEvent(i, n, stroke, st, map, Haz(d.rules, es, i, StrokeProps) \cup GeoFeat(n),
+                     [col |-> {RGBA(v) : v \in CandVals(d.rules, es, i, "stroke")}, w |-> {Num10(v) : v \in CandVals(d.rules, es, i, "stroke-width")},
+                      join |-> CandVals(d.rules, es, i, "stroke-linejoin"), lim |-> {Num10(v) : v \in CandVals(d.rules, es, i, "stroke-miterlimit")},
+                      cap |-> CandVals(d.rules, es, i, "stroke-linecap")])>> ELSE <<>>)
 RECURSIVE DocEvents(_, _)
 DocEvents(d, i) == IF i > Len(d.es) THEN <<>> ELSE (IF IsShape(d.es[i]) THEN ElemEvents(d, i) ELSE <<>>) \o DocEvents(d, i + 1)
 DocSize(d) == LET w == MM(d.unit, d.w) h == MM(d.unit, d.h) IN <<w[1], w[2], h[1], h[2]>>
@@ -530,7 +542,7 @@ RTDraw(o) == LET pick == At(o, 1) % 8
                  fill0 == Pk(o, 14, RTCols)  stroke == Pk(o, 15, <<"none", "none", "blue", "red", "black", "redh", "lime">>)
                  fill == IF fill0 = "none" /\ stroke = "none" THEN "black" ELSE fill0
                  view == Pk(o, 16, RTViews)
-             IN [subs |-> subs, view |-> view, fill |-> fill, stroke |-> stroke, w |-> Pk(o, 17, <<1, 1, 2, 3>>),
+             IN [subs |-> subs, view |-> view, fill |-> fill, stroke |-> stroke, frgba |-> RGBA(fill), srgba |-> RGBA(stroke), w |-> Pk(o, 17, <<1, 1, 2, 3>>),
                  join |-> Pk(o, 18, <<"miter", "miter", "bevel", "round">>), lim |-> Pk(o, 19, <<4, 4, 10, 2>>), cap |-> Pk(o, 20, <<"butt", "butt", "round", "square">>),
                  rule |-> Pk(o, 21, <<0, 0, 1>>)]
 Drawing == LET n == Pk(DOCo, 1, <<1, 2, 2, 3>>) IN
@@ -541,17 +553,17 @@ RTNF(dr) == LET segs == Flat([k \in 1..Len(dr.subs) |-> SubSegs(dr.subs[k])], 1)
              joints |-> Flat([k \in 1..Len(dr.subs) |-> SubJoints(dr.subs[k])], 1), ends |-> Flat([k \in 1..Len(dr.subs) |-> SubEnds(dr.subs[k])], 1),
              box |-> <<SetMin({p[1] : p \in allp}), SetMin({p[2] : p \in allp}), SetMax({p[1] : p \in allp}), SetMax({p[2] : p \in allp})>>]
 IsSimilarity(m) == m[1] * m[1] + m[4] * m[4] = m[2] * m[2] + m[5] * m[5] /\ m[1] * m[2] + m[4] * m[5] = 0
-RTFeat(dr, n) == (IF dr.rule = 1 /\ \E k \in 1..(Grid(n.box, Step + 2).nx * Grid(n.box, Step + 2).ny) :
-                         LET s == GridPt(Grid(n.box, Step + 2), k) IN ~OnPath(n.contours, s) /\ Wind(n.contours, s) # 0 /\ Wind(n.contours, s) % 2 = 0
+RTFeat(dr, n) == (IF dr.rule = 1 /\ \E k \in 1..(Grid(n.box, 5).nx * Grid(n.box, 5).ny) :
+                         LET s == GridPt(Grid(n.box, 5), k) IN ~OnPath(n.contours, s) /\ Wind(n.contours, s) # 0 /\ Wind(n.contours, s) % 2 = 0
                   THEN {"evenodd-differs"} ELSE {})
                  \cup (IF dr.fill = "redh" \/ dr.stroke = "redh" THEN {"alpha"} ELSE {})
                  \cup (IF ~IsSimilarity(dr.view) THEN {"non-similarity"} ELSE {})
 RTEvents(D, k) ==
     LET dr == D.draws[k]  n == RTNF(dr)  m == dr.view
         map == [a |-> <<m[1], m[2], S * m[3], -m[4], -m[5], S * (D.h - m[6])>>, dx |-> S * D.w, dy |-> S * D.h]
-        st == StrokeStyle(dr.w, dr.join, dr.lim, dr.cap)  f == RTFeat(dr, n)
-    IN (IF dr.fill # "none" THEN <<FillEvent(k, n, dr.fill, dr.rule, map, f)>> ELSE <<>>)
-       \o (IF dr.stroke # "none" THEN <<StrokeEvent(k, n, dr.stroke, st, map, f)>> ELSE <<>>)
+        st == StrokeStyle(dr.w, dr.join, dr.lim, dr.cap)  f == RTFeat(dr, n) \cup GeoFeat(n)
+    IN (IF dr.fill # "none" THEN <<FillEvent(k, n, dr.fill, dr.rule, map, f, [col |-> {}])>> ELSE <<>>)
+       \o (IF dr.stroke # "none" THEN <<StrokeEvent(k, n, dr.stroke, st, map, f, [col |-> {}])>> ELSE <<>>)
 RECURSIVE AllRTEvents(_, _)
 AllRTEvents(D, k) == IF k > Len(D.draws) THEN <<>> ELSE RTEvents(D, k) \o AllRTEvents(D, k + 1)
 RTScenario == LET D == Drawing ev == AllRTEvents(D, 1) IN
@@ -569,4 +581,61 @@ Emit == /\ Len(g) = NGenes /\ ~done /\ done' = TRUE /\ UNCHANGED g
              [] OTHER -> TRUE
 Next == Grow \/ Emit
 Spec == Init /\ [][Next]_vars
+
+\* ------------------------------------------------------------------------------------------------------
+\* 5. model-level laws (Mode = "mc"): properties of the semantics itself, checked on every drawn document
+\* ------------------------------------------------------------------------------------------------------
+Full == Mode = "mc" /\ Len(g) = NGenes
+RevAttrs(es) == [i \in 1..Len(es) |-> [es[i] EXCEPT !.attrs = Rev(@)]]
+CascadeLaws == Full => LET d == Doc es == d.es rs == d.rules IN
+    \A i \in 1..Len(es), k \in 1..Len(Props) :
+        LET p == Props[k] e == es[i] v == Computed(rs, es, i, p) c == Cands(rs, e, p) IN
+        /\ InSeq(v, Vals(p)) \/ v = Initial(p)                                               \* total: always a value of the property
+        /\ v = Computed(rs, RevAttrs(es), i, p)                                              \* the order of attributes is irrelevant
+        /\ (StyleVal(e, p) # "" => v = StyleVal(e, p))                                       \* the style attribute wins
+        /\ (StyleVal(e, p) = "" /\ c # {} =>                                                 \* else a matching rule of maximal specificity
+               \E x \in c : v = LastDecl(rs[x].d, p, Len(rs[x].d)) /\ \A y \in c : Specificity(rs[y]) <= Specificity(rs[x]))
+        /\ (StyleVal(e, p) = "" /\ c = {} /\ AttrVal(e, p) # "" => v = AttrVal(e, p))         \* else the presentation attribute
+        /\ (Declared(rs, e, p) = "" => v = IF ParentOf(es, i) = 0 THEN Initial(p) ELSE Computed(rs, es, ParentOf(es, i), p))   \* else inherited
+        /\ ((\A x, y \in c : x # y => Specificity(rs[x]) # Specificity(rs[y])) => Declared(Rev(rs), e, p) = Declared(rs, e, p))  \* rule order matters only among equal specificity
+Probe == {<<0, 0>>, <<1, 0>>, <<0, 1>>, <<3, -2>>}
+TransformLaws == Full => LET es == Doc.es IN
+    \A i \in 2..Len(es) : LET own == OwnMat(es[i]) par == IF ParentOf(es, i) = 0 THEN MId ELSE CTM(es, ParentOf(es, i))
+                               ix == {x \in 1..Len(es[i].attrs) : es[i].attrs[x].n = "transform"} IN
+        /\ MDet(CTM(es, i)) # 0
+        /\ \A q \in Probe : MDot(CTM(es, i), q) = MDot(par, MDot(own, q))                    \* the element's own transform is applied first
+        /\ \A x \in ix : LET t == es[i].attrs[x].t IN
+              /\ (Len(t) = 2 => \A q \in Probe : MDot(own, q) = MDot(OpMat(t[1]), MDot(OpMat(t[2]), q)))      \* "A B": B first
+              /\ \A y \in 1..Len(t) : (t[y].f = "rotate" /\ Len(t[y].a) = 3) => MDot(OpMat(t[y]), <<t[y].a[2], t[y].a[3]>>) = <<t[y].a[2], t[y].a[3]>>
+SS(w, j, l, c) == StrokeStyle(w, j, l, c)
+ShapeLaws == Full => LET es == Doc.es IN
+    \A i \in {x \in 1..Len(es) : IsShape(es[x])} : LET e == es[i] n == NF(e) gr == Grid(n.box, 11) IN
+        /\ (TooBig(n) => e.kind = "path")
+        /\ TooBig(n) \/ \A k \in 1..(gr.nx * gr.ny) : LET s == GridPt(gr, k) f == FillClass(n, s, 0) IN
+              /\ (e.kind = "rect" /\ n.kind = "poly" => f = IF InBox(s, n.box, 0) THEN CIN ELSE IF ~InBox(s, n.box, -1) THEN COUT ELSE f)   \* cells of a rect = its box
+              /\ (n.kind = "rrect" => (f = CIN => InBox(s, n.box, 0)) /\ (f = COUT => ~(InBox(s, n.box, 0) /\ Corner(n, s) = <<>>)))
+              /\ (n.kind \in {"circle", "ellipse"} => (f = CIN => EllSide(n.c, n.ra, n.rb, s) < 0) /\ (f = COUT => EllSide(n.c, n.ra, n.rb, s) > 0))
+              /\ ((n.kind = "poly" /\ f # CFREE /\ (\A x \in 1..Len(n.segs) : n.segs[x].k = "L")) => ((f = CIN) = (Wind(n.contours, s) # 0)))    \* polygons: Lattice winding
+              /\ \A w \in 1..2 : StrokeClass(n, SS(w, "bevel", 4, "butt"), s) = CIN => StrokeClass(n, SS(w + 1, "bevel", 4, "butt"), s) # COUT       \* wider pen covers more
+              /\ (StrokeClass(n, SS(2, "bevel", 4, "butt"), s) = CIN => StrokeClass(n, SS(2, "round", 4, "round"), s) = CIN /\ StrokeClass(n, SS(2, "miter", 4, "square"), s) = CIN)
+              /\ (StrokeClass(n, SS(2, "round", 4, "round"), s) = COUT => StrokeClass(n, SS(2, "bevel", 4, "butt"), s) = COUT)
+              /\ (StrokeClass(n, SS(2, "miter", 10, "butt"), s) = COUT => StrokeClass(n, SS(2, "miter", 2, "butt"), s) = COUT /\ StrokeClass(n, SS(2, "bevel", 4, "butt"), s) = COUT)
+              /\ (StrokeClass(n, SS(2, "miter", 2, "butt"), s) = CIN => StrokeClass(n, SS(2, "miter", 10, "butt"), s) = CIN)
+EventLaws == Full => LET d == Doc ev == DocEvents(d, 1) es == d.es IN
+    /\ \A x \in 1..Len(ev) : /\ IsShape(es[ev[x].el]) /\ ev[x].col # "none" /\ ev[x].map.dx > 0 /\ ev[x].map.dy > 0 /\ Len(ev[x].cells) = ev[x].nx * ev[x].ny
+                              /\ (x > 1 => ev[x - 1].el < ev[x].el \/ (ev[x - 1].el = ev[x].el /\ ev[x - 1].kind = "fill" /\ ev[x].kind = "stroke"))
+    /\ \A i \in {x \in 1..Len(es) : IsShape(es[x])} :
+          /\ (Computed(d.rules, es, i, "fill") # "none") = (\E x \in 1..Len(ev) : ev[x].el = i /\ ev[x].kind = "fill")
+          /\ (Computed(d.rules, es, i, "stroke") # "none") = (\E x \in 1..Len(ev) : ev[x].el = i /\ ev[x].kind = "stroke")
+    /\ LET z == DocSize(d) IN (d.unit = "absent") = (z[2] = 0)
+
+\* fixed points of the arc semantics (SVG F.6): quarter disc, concave quarter, three-quarter disc
+ArcNF(segs) == NF(Elem("path", 1, <<>>, <<>>, segs, <<>>, <<>>, ""))
+QDisc == ArcNF(<<Cmd("M", <<2, 2>>), Cmd("L", <<5, 2>>), Cmd("A", <<3, 3, 0, 0, 1, 2, 5>>), Cmd("Z", <<>>)>>)      \* centre (2,2): the quarter disc
+QConc == ArcNF(<<Cmd("M", <<2, 2>>), Cmd("L", <<5, 2>>), Cmd("A", <<3, 3, 0, 0, 0, 2, 5>>), Cmd("Z", <<>>)>>)      \* centre (5,5): triangle minus segment
+QBig  == ArcNF(<<Cmd("M", <<5, 2>>), Cmd("A", <<3, 3, 0, 1, 0, 2, 5>>), Cmd("Z", <<>>)>>)                          \* centre (2,2), 270 degrees from (5,2) the other way round
+ASSUME /\ FillClass(QDisc, <<29, 29>>, 0) = CIN /\ FillClass(QDisc, <<35, 35>>, 0) = COUT /\ FillClass(QDisc, <<11, 27>>, 0) = COUT
+       /\ FillClass(QConc, <<19, 19>>, 0) = CIN /\ FillClass(QConc, <<27, 27>>, 0) = COUT
+       /\ FillClass(QBig, <<11, 11>>, 0) = CIN /\ FillClass(QBig, <<5, 11>>, 0) = CIN /\ FillClass(QBig, <<27, 27>>, 0) = CIN /\ FillClass(QBig, <<29, 29>>, 0) = COUT /\ FillClass(QBig, <<19, 21>>, 0) = CIN
+       /\ FillClass(QBig, <<45, 45>>, 0) = COUT
 =============================================================================
